@@ -527,6 +527,20 @@ impl<'t, 'a> Gen<'t, 'a> {
                 if n == "eval" {
                     return self.direct_eval();
                 }
+                if self.t.chance(40) {
+                    // `aloneMethod.call(ctx, a)` / `.apply(ctx, [a])`: not a bare call (it has a receiver), nothing configured names it
+                    self.tag("bare-name-call-apply");
+                    let ctx = self.ident();
+                    let inner = self.args(d1);
+                    return if self.t.flag() {
+                        let mut a = vec![Arg { spread: false, e: ctx }];
+                        a.extend(inner);
+                        E::Call { callee: E::Member { obj: E::Id(n).bx(), prop: "call".into(), optional: false }.bx(), args: a, optional: false }
+                    } else {
+                        let elems: Vec<Option<Arg>> = inner.into_iter().map(Some).collect();
+                        E::Call { callee: E::Member { obj: E::Id(n).bx(), prop: "apply".into(), optional: false }.bx(), args: vec![Arg { spread: false, e: ctx }, Arg { spread: false, e: E::Array(elems) }], optional: false }
+                    };
+                }
                 let args = self.args(d1);
                 self.tag("bare-call");
                 E::Call { callee: E::Id(n).bx(), args, optional: false }
@@ -1635,7 +1649,23 @@ impl<'t, 'a> Gen<'t, 'a> {
         let et = Self::arg_text(&e);
         let e2 = self.plus(d.min(2));
         let e2t = Self::arg_text(&e2);
-        match self.t.below(21) {
+        match self.t.below(24) {
+            21 => {
+                // a reference that sits only in the default value of a nested (non-arrow) function's parameter
+                self.tag("reserved-ident");
+                self.tag("reserved:only-in-nested-function-default");
+                format!("function zd{k}(p = typeof {real}) {{ return p; }}\nx = zd{k}() + {e2t};")
+            }
+            22 => {
+                self.tag("reserved-ident");
+                self.tag("reserved:only-in-method-default");
+                format!("x = ({{ m(p = () => {real}) {{ return p; }} }}).m() + {e2t};")
+            }
+            23 => {
+                self.tag("reserved-ident");
+                self.tag("reserved:only-in-destructuring-parameter-default");
+                format!("const zf{k} = function ({{ q = {real} }} = {{}}) {{ return 1; }};\nx = zf{k}({{ q: 1 }}) + {e2t};")
+            }
             20 => {
                 self.tag("reserved-ident");
                 self.tag("reserved:unreferenced-function-name");
@@ -2300,7 +2330,25 @@ impl<'t, 'a> Gen<'t, 'a> {
             src.push_str("'use strict';\nvar afterMid = 1;\n");
         }
         if module && self.t.flag() {
-            src.push_str("export default f;\n");
+            if !self.o.exec && self.t.chance(150) {
+                // `export default <expression>`: function bodies inside the expression are bodies like any other
+                self.tag("export-default-expression");
+                let variant = self.t.below(4);
+                // (variant 1 is an arrow at the top level: no `new.target` / `this` of a function there)
+                self.push_fn_scope(&["p".to_string(), "q".to_string()], variant == 1, false, variant == 1);
+                let e1 = self.expr(3);
+                let e2 = self.expr(2);
+                self.scopes.pop();
+                let (e1, e2) = (e1.print(), Self::arg_text(&e2));
+                src.push_str(&match variant {
+                    0 => format!("export default {{ m(p, q) {{ return {e1}; }}, get g() {{ const p = 1, q = 2; return {e2}; }} }};\n"),
+                    1 => format!("export default async (p, q) => {{ const r = {e2}; return {e1}; }};\n"),
+                    2 => format!("export default (function (p, q) {{ return {e1}; }});\n"),
+                    _ => format!("export default [function (p, q) {{ return {e1}; }}, class {{ m(p, q) {{ return {e2}; }} }}];\n"),
+                });
+            } else {
+                src.push_str("export default f;\n");
+            }
         }
         if imports && self.t.flag() {
             // a late import: legal anywhere at the top level of a module
